@@ -414,6 +414,25 @@ def gen_sync_drain(seed: int, n: int) -> List[Scn]:
     return out
 
 
+def gen_late(seed: int, n: int) -> List[Scn]:
+    """A task that is registered while the worker is already running: messages naming it are skipped (harmlessly) before
+    the registration and executed exactly once after it."""
+    rng = random.Random(("late", seed).__repr__())
+    out = []
+    for _ in range(n):
+        A = rng.choice([0, 1, 2])
+        P = rng.choice([0, 1])
+        before = rng.randint(1, 2)
+        after = rng.randint(1, 3)
+        msgs: List[Dict[str, Any]] = [{"kind": "unknown", "late": True} for _ in range(before)]
+        msgs += [{"kind": "valid", "task": "ta0", "late": rng.random() < 0.7} for _ in range(after)]
+        cfg = {"A": A, "P": P, "ackable": rng.random() < 0.7, "msgs": msgs}
+        steps: List[Any] = [["arrive", before], ["adv_rel", rng.choice([0, 1, 4])], ["register"], ["arrive", after],
+                            ["adv_rel", 1], ["fin_all", rng.choice(["ret", "exc"])], ["adv_rel", 2], ["stop"], ["adv_rel", 5]]
+        out.append({"cfg": cfg, "steps": steps, "family": "late_registration"})
+    return out
+
+
 def gen_sync_sat(seed: int, n: int) -> List[Scn]:
     """A worker whose registered tasks are all synchronous, saturated with functions that keep running in pool threads:
     the concurrency limit and the prefetch bound hold for them exactly as for coroutines."""
